@@ -10,8 +10,11 @@ CONSTANTS
   X0s = {"x1"}
   Bulks = {"auto", "n1"}
   Shapes = {"sphere", "needle2"}
+  NPs = {1, 2}
   MaxOps = 4
   Mode = "fixed"
+  Starts <- MCStarts
 INVARIANT SetupIsCurrent
 INVARIANT AlwaysAdmissible
 PROPERTY NonInterference
+PROPERTY PhaseIsolation
